@@ -537,7 +537,8 @@ the class body wins; otherwise the entry comes from the first direct base (in th
 class statement) whose table has the name — a depth-first, first-base-first search. For single
 inheritance this is the nearest definition up the chain, i.e. what the MRO selects; with several
 bases it differs from the MRO exactly when a later base overrides a wrapper that an earlier base only
-inherits (see the example below and `known_findings`). -/
+inherits (see the example below); component selection for that shape is outside the property and is
+tied to the code by the correspondence runs only. -/
 theorem metas_first_base (H : Heap) (bases mro : List Nat) (pmap : Option UDict) (own : List (Str × Comps))
     (bs : List ClassDef) (hb : bases.mapM (fun b => H.classes[b]?) = some bs) (m : Str) :
     ∃ cd, (step H (.newClass bases mro pmap own)).1.classes = H.classes ++ [cd] ∧
@@ -605,7 +606,7 @@ private def diamond (cFirstA : Bool) : List Op :=
     if cFirstA then .newClass [1, 2] [3, 1, 2, 0] none [] else .newClass [2, 1] [3, 2, 1, 0] none [] ]
 /-- `class C(A, B)`: the table agrees with the MRO (A.ping, component front). `class C(B, A)`: the MRO
 still selects A.ping, but the table holds the entry B inherited from Base (component common) — the
-code as it is (reported as a finding; the correspondence runs confirm that the real metaclass does
+code as it is (an observation, outside the property; the correspondence runs confirm that the real metaclass does
 the same). -/
 example : ((run Heap.empty (diamond true)).classes[3]?.map fun cd =>
     (bodyClass (run Heap.empty (diamond true)).classes "ping".toList cd.mro, lookup cd.metas "ping".toList))
